@@ -24,10 +24,10 @@ Next == /\ l <= Len(Rec)
                   /\ nextStr' = [nextStr EXCEPT ![e.t] = 1] /\ nextRef' = [nextRef EXCEPT ![e.t] = 1] /\ UNCHANGED <<inited, viol>>
              [] e.ev = "str" ->
                   /\ viol' = Flag(IF e.new = 1 THEN e.id = nextStr[e.t] ELSE e.id < nextStr[e.t], "string ids do not restart with the call / leak between threads")
-                  /\ nextStr' = IF e.new = 1 THEN [nextStr EXCEPT ![e.t] = e.id + 1] ELSE nextStr /\ UNCHANGED <<inited, nextRef>>
+                  /\ nextStr' = (IF e.new = 1 THEN [nextStr EXCEPT ![e.t] = e.id + 1] ELSE nextStr) /\ UNCHANGED <<inited, nextRef>>
              [] e.ev = "ref" ->
                   /\ viol' = Flag(IF e.new = 1 THEN e.id = nextRef[e.t] ELSE e.id < nextRef[e.t], "object ids do not restart with the call / leak between threads")
-                  /\ nextRef' = IF e.new = 1 THEN [nextRef EXCEPT ![e.t] = e.id + 1] ELSE nextRef /\ UNCHANGED <<inited, nextStr>>
+                  /\ nextRef' = (IF e.new = 1 THEN [nextRef EXCEPT ![e.t] = e.id + 1] ELSE nextRef) /\ UNCHANGED <<inited, nextStr>>
         /\ l' = l + 1
 Spec == Init /\ [][Next]_vars
 Accepted == IF TLCGet("stats").diameter - 1 # Len(Rec)
